@@ -19,7 +19,8 @@ from vf.world import World, Hang, Running, Session
 from vf.simloop import Livelock
 
 PID = "C19"
-GAMMA = [b" ", b"-", b"M", b"0", b"9", b":", b">", b'"', b"/", b"\xff", b"\xc3\xa9", b"\0", b"d", b"l", b";", b"=", b"\t"]
+GAMMA = [b" ", b"-", b"M", b"0", b"9", b":", b">", b'"', b"/", b"\xff", b"\xc3\xa9", b"\0", b"d", b"l", b";", b"=", b"\t",
+         b"\xc2\xb2", b"\xd9\xa3"]     # (digits that are not ASCII: superscript two, Arabic-Indic three)
 
 UNIX = [
     b"-rw-r--r-- 1 none none 10 Jan 15 12:30 file.txt",
@@ -114,6 +115,15 @@ def parser_work(item):
                     ok = (isinstance(res, tuple) and len(res) == 2 and isinstance(res[0], pathlib.PurePosixPath)
                           and isinstance(res[1], dict) and all(isinstance(k, str) and isinstance(v, (str, int))
                                                                for k, v in res[1].items()))
+                    if ok:
+                        # ... and the facts are what they say they are: counts are decimal numbers, the time is the
+                        # 14-digit form every other part of the library (and MLSx) uses, the type is one of the known ones
+                        info = res[1]
+                        num = lambda v: isinstance(v, int) or (isinstance(v, str) and v.isascii() and v.isdigit())     # noqa
+                        ok = (all(num(info[k]) for k in ("size", "unix.links") if k in info)
+                              and ("modify" not in info or (isinstance(info["modify"], str) and len(info["modify"]) == 14
+                                                            and info["modify"].isascii() and info["modify"].isdigit()))
+                              and info.get("type", "file") in ("file", "dir", "link", "unknown"))
                     if not ok:
                         part.violation({"kind": "ill-typed-result", "family": family}, {"line": repr(m), "result": repr(res)},
                                        replay={"parser": [family, m.decode("latin-1")]})
@@ -452,7 +462,15 @@ def _users(a, base):
     return [a.User("alice", "pw", base_path=base, maximum_connections=1), a.User(base_path=base)]
 
 
-STATES = {"anon": ["USER anonymous"], "fresh": [], "pending": ["USER alice"], "alice": ["USER alice", "PASS pw"]}
+STATES = {"anon": ["USER anonymous"], "fresh": [], "pending": ["USER alice"], "alice": ["USER alice", "PASS pw"],
+          # ... with a data connection made, waiting for whatever transfer command comes
+          "anon-data": ["USER anonymous", "EPSV", "@data"]}
+# transfer commands whose arguments are garbage (a directory, nothing at all, a path through a file, an offset into a
+# file that is not there, bytes that are no text), for the state that has a data connection ready
+GARBAGE_TRANSFERS = [b"STOR d", b"STOR e", b"APPE d", b"RETR d", b"RETR missing", b"STOR missing/x", b"APPE g/x", b"STOR g/x",
+                     b"REST 5\r\nSTOR nosuch", b"REST 5\r\nAPPE nosuch", b"REST 99\r\nRETR g", b"LIST missing", b"MLSD g",
+                     b"STOR", b"RETR", b"APPE ", b"STOR \xff", b"RETR \xc3", b"STOR /", b"RETR /", b"STOR ..", b"LIST " + b"a/" * 300,
+                     b"STOR " + b"x" * 70000]
 SERVER_LIMIT = 3
 
 
@@ -662,6 +680,8 @@ def run(tier, seed, t0):
     core += [b"PASS \xff\xfe\r\n", b"PASS " + b"x" * (2 ** 16 + 5) + b"\r\n", ("eof", b"PASS p"), b"PASS wrong\r\n"]
     for state in ("fresh", "pending", "alice"):
         sitems += [(core[i:i + 30], solo, state) for i in range(0, len(core), 30)]
+    gt = [g + b"\r\n" for g in GARBAGE_TRANSFERS] + [("eof", g) for g in GARBAGE_TRANSFERS[:8]]
+    sitems += [(gt[i:i + 8], solo, "anon-data") for i in range(0, len(gt), 8)]
     def hung(kind):
         def on_timeout(item):
             # a synchronous endless loop in the code under test: the simulated loop never gets control back
